@@ -48,6 +48,7 @@ class P(vlib.Prop):
                       "zz_verif_c13_faithful_test.go": "C13/faithful_test.go",
                       "zz_verif_c13_validate_test.go": "C13/validate_test.go",
                       "zz_verif_c13_mismatch_test.go": "C13/mismatch_test.go",
+                      "zz_verif_c13_whole_test.go": "C13/whole_test.go",
                       "zz_verif_c13_schema_common_test.go": "C13/schema_common_test.go"},
                      "^TestVerifC13Decode$", "main"),
         vlib.Harness("notify", "service", "./extensions/", {"zz_verif_c13_test.go": "C13/notify_test.go"},
